@@ -10,6 +10,20 @@ CLAIMED = {
         'parameter swap the single-point tests cannot see.',
    note='real arithmetic instead of IEEE; cos/sin uninterpreted + sin^2+cos^2=1; extractor rule table; CBMC DFCC + SMT solver',
    tech='CBMC code contracts (goto-instrument --dfcc --enforce-contract) on C extracted mechanically from the C++ source, __CPROVER_rational + SMT portfolio (cvc5/z3)'),
+
+ 'C02': dict(cat='proof', ref='4/C02',
+   text='For all parameters and points (real arithmetic): every eval_q_* of the 8 Euler-family classes equals the inviscid mass/momentum/total-energy operator (cylindrical for the axisymmetric pair, with time terms for the transient ones) applied by jet differentiation to the same field jets that the eval_exact_* contracts pin to the documented sine/cosine forms; lemma_energy_forms ties the conservative energy forms to e_t and H of the statement.',
+   note='real arithmetic instead of IEEE; libm as uninterpreted functions + axioms of lib/real.h; denominators assumed non-zero; extractor rule table; CBMC DFCC + SMT solver', tech='CBMC code contracts (goto-instrument --dfcc --enforce-contract) on C extracted mechanically from the C++ source each run; __CPROVER_rational + SMT portfolio (cvc5/z3); native twin + real-class replay for counterexamples'),
+ 'C04': dict(cat='proof', ref='4/C04',
+   text='laplace_2d eval_q_f == PHI_xx+PHI_yy of the PHI jet eval_exact_phi returns; burgers eval_q_u/v(x,y,t) == U_t+(UU)_x+(UV)_y / V_t+(UV)_x+(VV)_y for the one U,V jet pair that eval_exact_u/v must return (2-argument forms = same jets without the temporal term); the named steady/viscous variants are covered too.',
+   note='real arithmetic instead of IEEE; libm as uninterpreted functions + axioms of lib/real.h; denominators assumed non-zero; extractor rule table; CBMC DFCC + SMT solver', tech='CBMC code contracts (goto-instrument --dfcc --enforce-contract) on C extracted mechanically from the C++ source each run; __CPROVER_rational + SMT portfolio (cvc5/z3); native twin + real-class replay for counterexamples'),
+ 'C06': dict(cat='proof', ref='4/C06',
+   text='euler_chem_1d: species sources == (rho_s u)_x - omega_s with Arrhenius forward rates and the caller callback as an uninterpreted function evaluated at the exact temperature (so: for ALL callbacks); second postconditions give source_N + source_N2 == (rho u)_x; momentum and energy sources == residual of the two-species thermally perfect Euler equations; exact fields pinned.',
+   note='real arithmetic instead of IEEE; libm as uninterpreted functions + axioms of lib/real.h; denominators assumed non-zero; extractor rule table; CBMC DFCC + SMT solver' + '; N2 gas constant taken as R_N/2 in pressure/translational energy as the code and model comment do', tech='CBMC code contracts (goto-instrument --dfcc --enforce-contract) on C extracted mechanically from the C++ source each run; __CPROVER_rational + SMT portfolio (cvc5/z3); native twin + real-class replay for counterexamples'),
+ 'C13': dict(cat='proof', ref='4/C13',
+   text='Loop-contract proofs (quantified invariants, decreases) that uptolow lower-cases every character, remove_line/remove_whitespace erase only their separator, keep order, leave no separator and introduce no character, and masa_map composes them (no dash, blank or upper-case letter remains) for every string up to 64 characters; plus a bounded stand-in (all strings up to length 7, full equality with the reference filter) that supplies concrete counterexample strings, replayed on the real masa_map.',
+   note='std::string find/replace/length/index/copy semantics are contracts in lib/vstr.h (trusted); capacity 64; z3 decides the quantified obligations; the comparison of the normalised name against catalogue names in init_mms is covered by C12/C14 contracts',
+   tech='CBMC code contracts + loop contracts (DFCC, --apply-loop-contracts) on C extracted from masa_map.cpp, std::string operations replaced by their contracts; z3; bounded unwinding stand-in labelled bounded'),
 }
 
 NOT_YET = 'contract check not built yet in this session (see DESIGN.md section 4 for the plan)'
